@@ -170,6 +170,22 @@ func c13Case(r *core.Run, idx int, rng *rand.Rand) {
 	case 1:
 		registered = false
 		l.Issuer = ""
+		l.NoIssuer = rng.Intn(2) == 0
+	}
+	if !registered && rng.Intn(2) == 0 {
+		// nobody (or a stranger) is named as Issuer while a registered service provider is named elsewhere in the request
+		switch rng.Intn(3) {
+		case 0:
+			l.SPNameQualifier = d.EntityID
+		case 1:
+			l.NameQualifier = d.EntityID
+		default:
+			l.SPNameQualifier, l.NameQualifier = d.EntityID, d.EntityID
+		}
+		if rng.Intn(3) == 0 {
+			l.NameID = d.EntityID
+		}
+		r.Count("unregistered_issuer_with_a_registered_entity_named_elsewhere", 1)
 	}
 	l.NoNameID = rng.Intn(5) == 0
 	x := l.XML(rng)
